@@ -207,3 +207,145 @@ PROPS = {
                        "obligations/discharged count only the Verus obligations; bounded_* count the Kani instances.",
     },
 }
+
+
+# ------------------------------------------------------------------------------------------ K-graph
+G = {"ADD": 0, "MUL": 1, "SUB": 2, "NEG": 3, "SCALE": 4, "UMUL": 5, "UNTRACK": 6, "CLONE": 7}
+MODES = {0: "seed", 1: "default", 2: "twice", 3: "clear+ones", 4: "mid-then-root"}
+
+
+def graph_inst(tag, nodes, nl=2, tracked=None, root=None, mode=0, mid=0, dims=(1,), prop="C01"):
+    tracked = tracked if tracked is not None else [True] * nl
+    total = nl + len(nodes)
+    root = total - 1 if root is None else root
+    name = "g_%s__t%s__r%d__m%d%s" % (tag, "".join("1" if t else "0" for t in tracked), root, mode,
+                                      "" if tuple(dims) == (1,) else "__d" + dn(dims))
+    ns = ", ".join("(%d, %d, %d)" % (G[o], i, j) for (o, i, j) in nodes)
+    src = "graph_instance!(%s, %d, [%s], %d, [%s], [%s], %d, %d, %d);" % (
+        name, max(12, prod(dims) + total + 6), lit(dims), nl, ", ".join("true" if t else "false" for t in tracked), ns, root, mode, mid)
+    return Instance(name, src, function="Array::backward / propagate_consumers",
+                    contract="backward contract on one graph class: C01 gradients = forward-mode derivative, C03 dims, C08 frame, "
+                             "C09 flags/untracked, C10 Clean + additivity, C11 one invocation with complete adjoint",
+                    bounds="graph %s over %d leaves (tracked=%s), root node %d, pass mode %s, array dims %s; values and seed symbolic in [-4,4]"
+                           % (nodes, nl, tracked, root, MODES[mode], list(dims)),
+                    descr="graph " + tag, timeout=900)
+
+
+GRAPHS = {
+    "chain": [("MUL", 0, 1), ("ADD", 2, 0), ("NEG", 3, 3)],
+    "diamond": [("MUL", 0, 1), ("MUL", 2, 0), ("ADD", 2, 3)],
+    "selfprod3": [("MUL", 0, 0), ("MUL", 2, 2), ("MUL", 3, 3)],
+    "shared": [("ADD", 0, 1), ("MUL", 0, 1), ("SUB", 2, 3)],
+    "untracked_mid": [("MUL", 0, 1), ("UNTRACK", 2, 2), ("MUL", 3, 0), ("ADD", 4, 2)],
+    "user_diamond": [("UMUL", 0, 1), ("UMUL", 2, 2), ("ADD", 3, 2)],
+    "user_chain": [("UMUL", 0, 1), ("UMUL", 2, 0), ("UMUL", 3, 2)],
+    "clone": [("CLONE", 0, 0), ("MUL", 0, 2), ("ADD", 3, 1)],
+    "side_consumer": [("MUL", 0, 1), ("ADD", 2, 0), ("MUL", 2, 2)],
+    "scale_sub": [("SCALE", 0, 0), ("SUB", 2, 1), ("MUL", 3, 3)],
+}
+
+
+def _rand_graphs(seed, count, n_nodes, ops=("ADD", "MUL", "SUB", "UMUL", "NEG", "SCALE")):
+    import random
+    rng = random.Random(seed * 7919 + n_nodes)
+    out = []
+    for c in range(count):
+        nodes = []
+        for k in range(n_nodes):
+            avail = 2 + k
+            nodes.append((rng.choice(ops), rng.randrange(avail), rng.randrange(avail)))
+        out.append(("rnd%d_%d_%d" % (n_nodes, seed, c), nodes))
+    return out
+
+
+def c01_instances(tier):
+    gi = graph_inst
+    I = [gi("diamond", GRAPHS["diamond"]), gi("selfprod3", GRAPHS["selfprod3"], mode=1),
+         gi("shared", GRAPHS["shared"], tracked=[True, False]), gi("user_chain", GRAPHS["user_chain"])]
+    if tier == "thorough":
+        seed = int(os.environ.get("VERIF_SEED", "0") or 0)
+        for tag, nodes in GRAPHS.items():
+            I.append(gi(tag, nodes))
+            I.append(gi(tag, nodes, mode=1, tracked=[False, True]))
+        I += [gi("diamond", GRAPHS["diamond"], dims=(2,)), gi("selfprod3", GRAPHS["selfprod3"], dims=(2, 2)),
+              gi("side_consumer", GRAPHS["side_consumer"], root=3)]
+        for tag, nodes in _rand_graphs(seed, 10, 2) + _rand_graphs(seed, 8, 3) + _rand_graphs(seed, 4, 4):
+            I.append(gi(tag, nodes))
+        seen = set()
+        I = [i for i in I if not (i.name in seen or seen.add(i.name))]
+    return I
+
+
+def c10_instances(tier):
+    gi = graph_inst
+    I = [gi("diamond", GRAPHS["diamond"], mode=2), gi("diamond", GRAPHS["diamond"], mode=4, mid=2),
+         gi("shared", GRAPHS["shared"], mode=3)]
+    if tier == "thorough":
+        for tag in ("chain", "selfprod3", "user_diamond", "untracked_mid", "clone"):
+            I.append(gi(tag, GRAPHS[tag], mode=2))
+            I.append(gi(tag, GRAPHS[tag], mode=3))
+        I += [gi("selfprod3", GRAPHS["selfprod3"], mode=4, mid=3), gi("user_chain", GRAPHS["user_chain"], mode=4, mid=2),
+              gi("side_consumer", GRAPHS["side_consumer"], mode=4, mid=3, root=4),
+              gi("diamond", GRAPHS["diamond"], mode=2, tracked=[True, False]),
+              gi("diamond", GRAPHS["diamond"], mode=2, dims=(2,))]
+    return I
+
+
+def c11_instances(tier):
+    gi = graph_inst
+    I = [gi("user_diamond", GRAPHS["user_diamond"]), gi("user_chain", GRAPHS["user_chain"], mode=2),
+         gi("side_consumer", GRAPHS["side_consumer"], root=3)]
+    if tier == "thorough":
+        U = {"user_selfprod3": [("UMUL", 0, 0), ("UMUL", 2, 2), ("UMUL", 3, 3)],
+             "user_fan": [("UMUL", 0, 1), ("UMUL", 2, 0), ("UMUL", 2, 1), ("ADD", 3, 4)],
+             "user_mixed": [("UMUL", 0, 1), ("MUL", 2, 0), ("UMUL", 3, 2)]}
+        for tag, nodes in U.items():
+            I.append(gi(tag, nodes))
+            I.append(gi(tag, nodes, mode=4, mid=2 + 1))
+        I += [gi("user_diamond", GRAPHS["user_diamond"], tracked=[True, False]), gi("user_chain", GRAPHS["user_chain"], mode=4, mid=3),
+              gi("user_diamond", GRAPHS["user_diamond"], dims=(2,))]
+        seed = int(os.environ.get("VERIF_SEED", "0") or 0)
+        for tag, nodes in _rand_graphs(seed + 1, 6, 3, ops=("UMUL", "UMUL", "ADD", "MUL")):
+            I.append(gi(tag, nodes))
+    return I
+
+
+def c17_instances(tier):
+    gi = graph_inst
+    I = [gi("diamond", GRAPHS["diamond"], mode=3), gi("selfprod3", GRAPHS["selfprod3"], mode=0, dims=(2,)),
+         gi("scale_sub", GRAPHS["scale_sub"], mode=3)]
+    if tier == "thorough":
+        for tag in ("chain", "shared", "user_diamond", "untracked_mid", "clone", "user_chain"):
+            I.append(gi(tag, GRAPHS[tag], mode=3))
+            I.append(gi(tag, GRAPHS[tag], mode=0, dims=(2,)))
+    return I
+
+
+_GRAPH_TEXT = ("Bounded (Kani/CBMC on the real crate, cbmc --max-field-sensitivity-array-size so that the Rc/Cell graph walk is "
+               "executed precisely): for each concrete graph class the harness builds the graph with the real operations (and user "
+               "operations through Array::op), runs the real backward pass(es) with symbolic values and seed, and asserts the "
+               "contract of backward: gradients equal an independent forward-mode derivative of the same node list, Clean(G) before "
+               "and after, flags and values unchanged, user derivative closures invoked exactly once with the complete adjoint. "
+               "No unbounded contract for the walk is dischargeable with Verus/Kani as installed (Rc<Cell>, dyn closures); the "
+               "composition over all programs is not machine-checked.")
+_GRAPH_NOTE = ("graph classes concrete (<= 6 nodes, arrays of 1-4 elements), values/seeds symbolic integers in [-4,4] (A2), "
+               "Rc::drop_slow stubbed (A3); graph families listed in the evidence; thorough adds VERIF_SEED-sampled random node lists")
+
+PROPS.update({
+    "C01": {"level": "model_checking", "kani_groups": ["h_graph.rs"], "instances": c01_instances,
+            "technique": "bounded contract checking (Kani/CBMC) of the real backward pass on concrete graph classes against a forward-mode oracle",
+            "level_text": _GRAPH_TEXT, "level_note": _GRAPH_NOTE, "explanation": _GRAPH_TEXT,
+            "not_decided": ["the lifting from the checked graph classes to all programs (induction over the pass) is not machine-checked"]},
+    "C10": {"level": "model_checking", "kani_groups": ["h_graph.rs"], "instances": c10_instances,
+            "technique": "bounded contract checking (Kani/CBMC): repeated / interleaved backward passes on concrete graph classes, Clean(G) invariant",
+            "level_text": _GRAPH_TEXT, "level_note": _GRAPH_NOTE, "explanation": _GRAPH_TEXT},
+    "C11": {"level": "model_checking", "kani_groups": ["h_graph.rs"], "instances": c11_instances,
+            "technique": "bounded contract checking (Kani/CBMC): user-operation graphs with invocation counters and recorded adjoints",
+            "level_text": _GRAPH_TEXT, "level_note": _GRAPH_NOTE, "explanation": _GRAPH_TEXT},
+    "C17": {"level": "model_checking", "kani_groups": ["h_graph.rs"], "instances": c17_instances,
+            "technique": "bounded contract checking (Kani/CBMC): gradient = symbolic seed x seed-independent derivative (linearity), "
+                         "default seed vs explicit ones bitwise",
+            "level_text": _GRAPH_TEXT, "level_note": _GRAPH_NOTE, "explanation": _GRAPH_TEXT},
+})
+for _k in ("C01", "C10", "C11", "C17"):
+    NOT_APPLICABLE.pop(_k, None)
